@@ -829,7 +829,8 @@ fn emit_target(ctx: &mut Ctx, unit: &Unit, t: &Target) -> Emitted {
     // lowering
     let mut rules: Vec<&Rule> = Vec::new();
     rules.extend(t.rules.iter());
-    rules.extend(unit.rules.iter());
+    let visible = unit.visible(&t.spec_file);
+    rules.extend(unit.rules.iter().filter(|r| visible.contains(&r.file)));
     let n_rules = rules.len();
     let mut drop_g = unit.drop_generics.clone();
     drop_g.extend(t.drop_generics.iter().cloned());
@@ -1009,13 +1010,14 @@ fn count_stmts(b: &Block) -> usize {
     b.stmts.iter().map(count_stmt).sum()
 }
 
-fn emit_struct(ctx: &mut Ctx, unit: &Unit, file: &str, name: &str, rename: Option<&String>) -> (String, serde_json::Value) {
+fn emit_struct(ctx: &mut Ctx, unit: &Unit, file: &str, name: &str, rename: Option<&String>, spec_file: &str) -> (String, serde_json::Value) {
     let f = ctx.file(file).clone();
     let it = match find_named_item(&f.items, name) {
         Some(i) => i.clone(),
         None => die(&format!("lost anchor: item {} not found in {}", name, file)),
     };
-    let rules: Vec<&Rule> = unit.rules.iter().collect();
+    let visible = unit.visible(spec_file);
+    let rules: Vec<&Rule> = unit.rules.iter().filter(|r| visible.contains(&r.file)).collect();
     let n = rules.len();
     let mut lw = Lower { drop_generics: unit.drop_generics.clone(), rules, counts: vec![0; n], notes: BTreeMap::new() };
     let line = it.span().start().line;
@@ -1159,14 +1161,14 @@ fn main() {
                 out.push_str(txt.trim_start_matches('\n'));
                 out.push('\n');
             }
-            Item::Struct { file, name, rename } => {
-                let (txt, info) = emit_struct(&mut ctx, &unit, file, name, rename.as_ref());
+            Item::Struct { file, name, rename, spec_file } => {
+                let (txt, info) = emit_struct(&mut ctx, &unit, file, name, rename.as_ref(), spec_file);
                 out.push_str(&txt);
                 out.push('\n');
                 items_info.push(info);
             }
-            Item::Const { file, name } => {
-                let (txt, info) = emit_struct(&mut ctx, &unit, file, name, None);
+            Item::Const { file, name, spec_file } => {
+                let (txt, info) = emit_struct(&mut ctx, &unit, file, name, None, spec_file);
                 out.push_str(&txt);
                 out.push('\n');
                 items_info.push(info);
